@@ -164,3 +164,44 @@ func debugProbe(mw *cors.Middleware, allowedOrigin string) string {
 	}
 	return "unknown:" + o.String()
 }
+
+// viaOther is the configuration middlewares are "reconfigured from" by newMiddlewareVia.
+var viaOther = cors.Config{Origins: []string{"https://via-other.example", "https://*.via-other.example:8443"}, Methods: []string{"PURGE", "PUT"},
+	RequestHeaders: []string{"X-Via-Other", "X-Listed-2", "Authorization"}, MaxAgeInSeconds: 999, ResponseHeaders: []string{"X-Via-Exposed"},
+	ExtraConfig: cors.ExtraConfig{PreflightSuccessStatus: 298}}
+
+// newMiddlewareVia builds a middleware configured with cfg along one of several equivalent histories
+// (DESIGN.md section 9, lesson of seeded change C08-b: state that only a previous Reconfigure leaves behind):
+// 0 NewMiddleware; 1 zero value + Reconfigure; 2 NewMiddleware(other) + SetDebug(true) + Reconfigure(cfg) + SetDebug(false);
+// 3 NewMiddleware(cfg) + Reconfigure(nil) + Reconfigure(cfg).
+func newMiddlewareVia(cfg cors.Config, via int) (*cors.Middleware, error) {
+	switch via % 4 {
+	case 1:
+		m := new(cors.Middleware)
+		c := cfg
+		return m, m.Reconfigure(&c)
+	case 2:
+		m, err := cors.NewMiddleware(viaOther)
+		if err != nil {
+			panic("viaOther rejected: " + err.Error())
+		}
+		m.SetDebug(true)
+		c := cfg
+		if err := m.Reconfigure(&c); err != nil {
+			return nil, err
+		}
+		m.SetDebug(false)
+		return m, nil
+	case 3:
+		m, err := cors.NewMiddleware(cfg)
+		if err != nil {
+			return nil, err
+		}
+		if err := m.Reconfigure(nil); err != nil {
+			return nil, err
+		}
+		c := cfg
+		return m, m.Reconfigure(&c)
+	}
+	return cors.NewMiddleware(cfg)
+}
